@@ -1,14 +1,21 @@
 (* Correspondence judge for C18: the real nsqadmin's views against the stub upstreams' data,
    the real clusterinfo / stringy functions called directly, and process liveness under a
    hostile stream.  No proofs here. *)
-From Coq Require Import String List ZArith NArith Bool.
-From NSQV Require Import model.Judge model.Cluster.
+From Coq Require Import String List ZArith NArith Bool QArith_base.
+From NSQV Require Import model.Judge model.Cluster model.Quantile.
 Import ListNotations.
 Open Scope list_scope.
 Open Scope Z_scope.
 
+(* a rational of a case term *)
+Definition qq (n : Z) (d : positive) : Q := Qmake n d.
 
-Record obs_chan := mkOC { oc_name : bytes; oc_num : list Z; oc_paused : bool }.
+(* an e2e aggregate as nsqadmin served it (or as the real Add left it): JSON null / nil, or the
+   count and the non-null entries ("quantile", "max", "count", "average"; float64 exactly) *)
+Record obs_pe := mkOP { op_q : Q; op_max : Q; op_count : Q; op_avg : Q }.
+Inductive obs_e2e := OENone | OE (count : Z) (pcts : list obs_pe).
+
+Record obs_chan := mkOC { oc_name : bytes; oc_num : list Z; oc_paused : bool; oc_e2e : obs_e2e }.
 Record obs_node := mkON { on_bcast : bytes; on_http : bytes; on_tcp : bytes; on_host : bytes;
                           on_topics : list (bytes * bool); on_remotes : list bytes }.
 
@@ -16,9 +23,9 @@ Inductive case :=
 | CTopics (lookupd_mode : bool) (ups : lup (list bytes)) (st : N) (warn : bool) (got : list bytes)
 | CNodes (src : stage1) (st : N) (warn : bool) (got : list obs_node)
 | CTopic (src : stage1) (stats : lup (list (option topic))) (t : bytes)
-         (st : N) (warn : bool) (num : list Z) (paused : bool) (nodes : list bytes) (chans : list obs_chan)
+         (st : N) (warn : bool) (num : list Z) (paused : bool) (nodes : list bytes) (chans : list obs_chan) (te2e : obs_e2e)
 | CChannel (src : stage1) (stats : lup (list (option topic))) (t c : bytes)
-           (st : N) (warn : bool) (num : list Z) (paused : bool) (nodes : list bytes) (clients : list (bytes * bytes))
+           (st : N) (warn : bool) (num : list Z) (paused : bool) (nodes : list bytes) (clients : list (bytes * bytes)) (ce2e : obs_e2e)
 | CCounter (src : stage1) (stats : lup (list (option topic)))
            (st : N) (warn : bool) (rows : list (bytes * bytes * bytes * Z))
 | CNode (src : stage1) (stats : lup (list (option topic))) (node : bytes)
@@ -29,6 +36,9 @@ Inductive case :=
 | CTomb (topics : list bytes) (tombs : list bool) (decoded : bool) (got : list (bytes * bool))
 | CChanAdd (chans : list chan) (num : list Z) (paused : bool) (nclients : Z)
 | CTopicAdd (nodes : list (list chan * list Z * bool)) (num : list Z) (paused : bool) (chans : list obs_chan)
+  (* the real ChannelStats.Add on blocks decoded by the real UnmarshalJSON: a fresh receiver, or
+     (raw) the first node's ChannelStats as the receiver -- what the topic view does to its channels *)
+| CE2eAdd (raw : bool) (nodes : list (option e2e)) (panicked nan : bool) (got : obs_e2e)
   (* the nsqadmin subprocess after a hostile upstream answer *)
 | CAlive (alive : bool) (answered : bool).
 
@@ -57,6 +67,7 @@ Definition status_of {V : Type} (r : res (view V)) : N :=
 Definition warn_of_view {V : Type} (r : res (view V)) : bool :=
   match r with Ok (VOk _ w) => w | _ => false end.
 
+(* (the aggregate of a channel is compared separately) *)
 Definition chan_obs_eqb (a b : obs_chan) : bool :=
   bytes_eqb (oc_name a) (oc_name b) && zs_eqb (oc_num a) (oc_num b) && Bool.eqb (oc_paused a) (oc_paused b).
 
@@ -78,21 +89,108 @@ Definition stats_ups (src : stage1) (stats : lup (list (option topic))) : option
   | AOk ps n => Some (map (fun p => (p, assoc_fetch (p_addr p) stats)) ps, n)
   end.
 
-(* 502 iff a stage got no answer; a warning iff an upstream of either stage failed *)
-Definition spec_status (src : stage1) (stats : lup (list (option topic))) (st : N) (warn : bool) : bool :=
+(* 502 iff a stage got no answer; otherwise the view IS served (200) -- unless [excuse] holds of
+   the answering upstreams' data (the documented recovered 500s: a JSON null channel in the topic
+   asked for, a channel no node has) --, with a warning iff an upstream of either stage failed *)
+Definition spec_status (src : stage1) (stats : lup (list (option topic))) (st : N) (warn : bool)
+           (excuse : list (pinfo * fetch (list (option topic))) -> bool) : bool :=
   match stats_ups src stats with
   | None => (st =? 502)%N
   | Some (ups, n1) =>
       if all_failed ups then (st =? 502)%N
-      else negb (st =? 502)%N && (if (st =? 200)%N then Bool.eqb warn (negb (Nat.eqb n1 0) || some_failed ups) else true)
+      else if (st =? 200)%N then Bool.eqb warn (negb (Nat.eqb n1 0) || some_failed ups)
+      else (st =? 500)%N && excuse ups
+  end.
+
+(* ---- the e2e latency aggregate, from the nodes' blocks directly.
+   [raw]: the receiver is the first node's own block (the channels of the topic view), so a
+   single node's block is served as it came; otherwise a fresh aggregate.  A null entry of a
+   block reads as quantile 0 / value 0 / count 0 when it is merged into a fresh aggregate; in
+   a raw receiver it stays a nil map and may make the merge panic: those cases are excused. *)
+Definition contribs (nodes : list (option e2e)) : list (Q * Q * Q) :=
+  flat_map (fun e : e2e => map (fun p => match p with
+                                   | Some p => (pc_q p, pc_val p, inject_Z (e_count e))
+                                   | None => (0, 0, 0)%Q
+                                   end) (e_pcts e)) (nonnil nodes).
+Definition c_q (c : Q * Q * Q) : Q := fst (fst c).
+Definition c_val (c : Q * Q * Q) : Q := snd (fst c).
+Definition c_cnt (c : Q * Q * Q) : Q := snd c.
+Definition qabs (a : Q) : Q := if Qle_bool 0 a then a else Qopp a.
+Definition has_null_pct (nodes : list (option e2e)) : bool :=
+  existsb (fun e : e2e => existsb is_nil (e_pcts e)) (nonnil nodes).
+Definition two40 : Q := qq 1099511627776 1.
+Definition two30 : Q := qq 1073741824 1.
+(* |a - b| <= (1 + maxv) * amp / 2^bits *)
+Definition close_to (a b maxv amp scale : Q) : bool :=
+  Qle_bool (Qmult (qabs (Qminus a b)) scale) (Qmult (Qplus 1 maxv) amp).
+Fixpoint nodup_q (l : list Q) : bool :=
+  match l with [] => true | x :: r => negb (existsb (Qeq_bool x) r) && nodup_q r end.
+
+Definition e2e_none_expected (raw : bool) (nodes : list (option e2e)) : bool :=
+  if raw then Nat.leb (length nodes) 1 && Nat.eqb (length (nonnil nodes)) 0 else Nat.eqb (length nodes) 0.
+
+Definition e2e_spec (raw : bool) (nodes : list (option e2e)) (got : obs_e2e) : bool :=
+  if raw && has_null_pct nodes then true else
+  let cs := contribs nodes in
+  let maxv := maxQ 0 (map (fun c => qabs (c_val c)) cs) in
+  match got with
+  | OENone => e2e_none_expected raw nodes
+  | OE cnt ps =>
+      negb (e2e_none_expected raw nodes) &&
+      (cnt =? w64 (sumZ (map e_count (nonnil nodes)))) &&
+      nodup_q (map op_q ps) &&
+      forallb (fun c => existsb (fun o => Qeq_bool (op_q o) (c_q c)) ps) cs &&
+      forallb (fun o =>
+        let m := filter (fun c => Qeq_bool (c_q c) (op_q o)) cs in
+        let total := sumQ (map c_cnt m) in
+        negb (Nat.eqb (length m) 0) &&
+        Qeq_bool (op_count o) total &&
+        (if forallb (fun c => Qle_bool 0 (c_val c)) m then Qeq_bool (op_max o) (maxQ 0 (map c_val m)) else true) &&
+        (if forallb (fun c => Qle_bool 0 (c_cnt c)) m then
+           if Qle_bool total 0
+           then Qeq_bool (op_avg o) 0 || (raw && existsb (fun c => Qeq_bool (op_avg o) (c_val c)) m)
+           else (* the weighted mean: | avg * total - sum count * value | <= total * (1 + maxv) / 2^40 *)
+                close_to (Qmult (op_avg o) total) (sumQ (map (fun c => Qmult (c_cnt c) (c_val c)) m)) maxv total two40
+         else true)) ps
+  end.
+
+(* ---- the e2e aggregate against the model's (the model merges in list order, the code in the
+   order its fetches finish: with counts that are not negative only the average of an entry
+   nothing was counted for can differ, and only for a raw receiver) *)
+Definition close_e2e (raw : bool) (nodes : list (option e2e)) (model : option eagg) (got : obs_e2e) : bool :=
+  let cs := contribs nodes in
+  let maxv := maxQ 0 (map (fun c => qabs (c_val c)) cs) in
+  let nonneg := forallb (fun c => Qle_bool 0 (c_cnt c)) cs in
+  let amp := if nonneg then 1%Q else Qplus 1 (sumQ (map (fun c => qabs (c_cnt c)) cs)) in
+  let scale := if nonneg then two40 else two30 in
+  match model, got with
+  | None, OENone => true
+  | Some e, OE cnt ps =>
+      let mp := nonnil (ea_pcts e) in
+      (cnt =? ea_count e) && Nat.eqb (length ps) (length mp) &&
+      forallb (fun o =>
+        match find (fun x => Qeq_bool (pe_q x) (op_q o)) mp with
+        | Some x =>
+            Qeq_bool (op_count o) (pe_count x) && Qeq_bool (op_max o) (pe_max x) &&
+            (close_to (op_avg o) (pe_avg x) maxv amp scale ||
+             (raw && Qeq_bool (pe_count x) 0 &&
+              (Qeq_bool (op_avg o) 0 || existsb (fun c => Qeq_bool (c_q c) (op_q o) && Qeq_bool (op_avg o) (c_val c)) cs)))
+        | None => false
+        end) ps
+  | _, _ => false
   end.
 
 Definition sums_c (es : list chan) : list Z := map (fun f => w64 (sumZ (map (fun a => f (chan_num a)) es))) cfields.
 Definition sums_t (ns : list tnode) : list Z := map (fun f => w64 (sumZ (map (fun a => f (tn_num a)) ns))) tfields.
 
+(* the blocks of the topic asked for, one per (answering node, non-null topic entry of that name) *)
+Definition topic_blocks (ups : list (pinfo * fetch (list (option topic)))) (sel : bytes) : list (option e2e) :=
+  flat_map (fun u : pinfo * list (option topic) =>
+              flat_map (fun tp => if sel_skips sel (tp_name tp) then [] else [tp_e2e tp]) (nonnil (snd u))) (answers ups).
+
 Definition monitor_topic (src : stage1) stats (t : bytes) (st : N) (warn : bool) (num : list Z) (paused : bool)
-           (nodes : list bytes) (chans : list obs_chan) : bool :=
-  spec_status src stats st warn &&
+           (nodes : list bytes) (chans : list obs_chan) (te2e : obs_e2e) : bool :=
+  spec_status src stats st warn (fun ups => existsb is_nil (chans_seq (all_topic_nodes ups t))) &&
   match stats_ups src stats with
   | Some (ups, _) =>
       if (st =? 200)%N then
@@ -102,14 +200,17 @@ Definition monitor_topic (src : stage1) stats (t : bytes) (st : N) (warn : bool)
         ms_eqb bytes_eqb nodes (map tn_node ns) &&
         same_set (map oc_name chans) (map ch_name cs) && nodup_b (map oc_name chans) &&
         forallb (fun o => let mine := filter (fun a => bytes_eqb (ch_name a) (oc_name o)) cs in
-                          zs_eqb (oc_num o) (sums_c mine) && Bool.eqb (oc_paused o) (existsb ch_paused mine)) chans
+                          zs_eqb (oc_num o) (sums_c mine) && Bool.eqb (oc_paused o) (existsb ch_paused mine) &&
+                          e2e_spec true (map ch_e2e mine) (oc_e2e o)) chans &&
+        e2e_spec false (topic_blocks ups t) te2e
       else true
   | None => true
   end.
 
 Definition monitor_channel (src : stage1) stats (t c : bytes) (st : N) (warn : bool) (num : list Z) (paused : bool)
-           (nodes : list bytes) (clients : list (bytes * bytes)) : bool :=
-  spec_status src stats st warn &&
+           (nodes : list bytes) (clients : list (bytes * bytes)) (ce2e : obs_e2e) : bool :=
+  spec_status src stats st warn
+    (fun ups => Nat.eqb (length (filter (fun e => bytes_eqb (ekey t e) c) (all_entries ups t))) 0) &&
   match stats_ups src stats with
   | Some (ups, _) =>
       if (st =? 200)%N then
@@ -117,13 +218,14 @@ Definition monitor_channel (src : stage1) stats (t c : bytes) (st : N) (warn : b
         zs_eqb num (sums_c (map snd es)) && Bool.eqb paused (existsb (fun e => ch_paused (snd e)) es) &&
         ms_eqb bytes_eqb nodes (map (fun e => p_addr (fst (fst e))) es) &&
         ms_eqb (pair_eqb bytes_eqb bytes_eqb) clients
-               (flat_map (fun e => map (fun cl => (p_addr (fst (fst e)), cl_id cl)) (nonnil (ch_clients (snd e)))) es)
+               (flat_map (fun e => map (fun cl => (p_addr (fst (fst e)), cl_id cl)) (nonnil (ch_clients (snd e)))) es) &&
+        e2e_spec false (map (fun e => ch_e2e (snd e)) es) ce2e
       else true
   | None => true
   end.
 
 Definition monitor_counter (src : stage1) stats (st : N) (warn : bool) (rows : list (bytes * bytes * bytes * Z)) : bool :=
-  spec_status src stats st warn &&
+  spec_status src stats st warn (fun _ => false) &&
   match stats_ups src stats with
   | Some (ups, _) =>
       if (st =? 200)%N then
@@ -201,30 +303,56 @@ Definition judge (c : case) : N :=
              same_set got (flat_map snd (answers ups)) in
       verdict agree monitor
   | CNodes src st warn got => judge_nodes src st warn got
-  | CTopic src stats t st warn num paused nodes chans =>
+  | CTopic src stats t st warn num paused nodes chans te2e =>
       let r := topic_view (stage1_producers src) (stats_of stats) t in
+      (* the aggregates the answer carries: the topic's own and one per channel *)
+      let ups := match stats_ups src stats with Some (ups, _) => ups | None => [] end in
+      let cs := flat_map (fun a => nonnil (tn_chans a)) (all_topic_nodes ups t) in
+      let blocks_of (name : bytes) := map ch_e2e (filter (fun a => bytes_eqb (ch_name a) name) cs) in
+      let e2e_ok :=
+        match e2e_of_nodes (topic_blocks ups t) with
+        | Ok m => close_e2e false (topic_blocks ups t) m te2e
+        | _ => false
+        end &&
+        forallb (fun o => match e2e_of_topic_channel (blocks_of (oc_name o)) with
+                          | Ok m => close_e2e true (blocks_of (oc_name o)) m (oc_e2e o)
+                          | _ => false
+                          end) chans in
+      let e2e_status := (* a merge that panics or leaves the finite numbers: nothing is served *)
+        match e2e_of_nodes (topic_blocks ups t) with Ok _ => true | _ => false end &&
+        forallb (fun a => match e2e_of_topic_channel (blocks_of (ch_name a)) with Ok _ => true | _ => false end) cs in
       let agree :=
-        (status_of r =? st)%N &&
         match r with
         | Ok (VOk v w) =>
-            Bool.eqb warn w && zs_eqb num (tn_list (ta_num v)) && Bool.eqb paused (ta_paused v) &&
-            ms_eqb bytes_eqb nodes (map fst (ta_nodes v)) &&
-            ms_eqb chan_obs_eqb chans (map (fun s => mkOC (cs_name s) (cn_list (cs_num s)) (cs_paused s)) (ta_chans v))
-        | _ => true
+            if e2e_status then
+              (st =? 200)%N &&
+              Bool.eqb warn w && zs_eqb num (tn_list (ta_num v)) && Bool.eqb paused (ta_paused v) &&
+              ms_eqb bytes_eqb nodes (map fst (ta_nodes v)) &&
+              ms_eqb chan_obs_eqb chans (map (fun s => mkOC (cs_name s) (cn_list (cs_num s)) (cs_paused s) OENone) (ta_chans v)) &&
+              e2e_ok
+            else (st =? 500)%N
+        | _ => (status_of r =? st)%N
         end in
-      verdict agree (monitor_topic src stats t st warn num paused nodes chans)
-  | CChannel src stats t ch st warn num paused nodes clients =>
+      verdict agree (monitor_topic src stats t st warn num paused nodes chans te2e)
+  | CChannel src stats t ch st warn num paused nodes clients ce2e =>
       let r := channel_view (stage1_producers src) (stats_of stats) t ch in
+      let ups := match stats_ups src stats with Some (ups, _) => ups | None => [] end in
+      let blocks := map (fun e => ch_e2e (snd e)) (filter (fun e => bytes_eqb (ekey t e) ch) (all_entries ups t)) in
       let agree :=
-        (status_of r =? st)%N &&
         match r with
         | Ok (VOk v w) =>
-            Bool.eqb warn w && zs_eqb num (cn_list (ca_num v)) && Bool.eqb paused (ca_paused v) &&
-            ms_eqb bytes_eqb nodes (map (fun nd => fst (fst nd)) (ca_nodes v)) &&
-            ms_eqb (pair_eqb bytes_eqb bytes_eqb) clients (map (fun x => (fst x, cl_id (snd x))) (ca_clients v))
-        | _ => true
+            match e2e_of_nodes blocks with
+            | Ok m =>
+                (st =? 200)%N &&
+                Bool.eqb warn w && zs_eqb num (cn_list (ca_num v)) && Bool.eqb paused (ca_paused v) &&
+                ms_eqb bytes_eqb nodes (map (fun nd => fst (fst nd)) (ca_nodes v)) &&
+                ms_eqb (pair_eqb bytes_eqb bytes_eqb) clients (map (fun x => (fst x, cl_id (snd x))) (ca_clients v)) &&
+                close_e2e false blocks m ce2e
+            | _ => (st =? 500)%N
+            end
+        | _ => (status_of r =? st)%N
         end in
-      verdict agree (monitor_channel src stats t ch st warn num paused nodes clients)
+      verdict agree (monitor_channel src stats t ch st warn num paused nodes clients ce2e)
   | CCounter src stats st warn rows =>
       let r := counter_view (stage1_producers src) (stats_of stats) in
       let agree :=
@@ -265,9 +393,19 @@ Definition judge (c : case) : N :=
       let v := tagg_of tns in
       let cs := flat_map (fun a => nonnil (tn_chans a)) tns in
       verdict (zs_eqb num (tn_list (ta_num v)) && Bool.eqb paused (ta_paused v) &&
-               ms_eqb chan_obs_eqb chans (map (fun s => mkOC (cs_name s) (cn_list (cs_num s)) (cs_paused s)) (ta_chans v)))
+               ms_eqb chan_obs_eqb chans (map (fun s => mkOC (cs_name s) (cn_list (cs_num s)) (cs_paused s) OENone) (ta_chans v)))
               (zs_eqb num (sums_t tns) && Bool.eqb paused (existsb tn_paused tns) &&
                forallb (fun o => let mine := filter (fun a => bytes_eqb (ch_name a) (oc_name o)) cs in
                                  zs_eqb (oc_num o) (sums_c mine) && Bool.eqb (oc_paused o) (existsb ch_paused mine)) chans)
+  | CE2eAdd raw nodes panicked nan got =>
+      let r := if raw then e2e_of_topic_channel nodes else e2e_of_nodes nodes in
+      verdict (match r with
+               | Ok m => negb panicked && negb nan && close_e2e raw nodes m got
+               | Recovered => panicked
+               | Crash => false
+               end)
+              (* never a number that is not finite; no panic and the documented numbers unless a
+                 raw receiver holds a null entry *)
+              (negb nan && (if raw && has_null_pct nodes then true else negb panicked && e2e_spec raw nodes got))
   | CAlive alive answered => verdict alive alive
   end.
